@@ -527,9 +527,11 @@ Built BuildPsbt(GenCtx& g, uint32_t ver, bool allow_final, bool allow_leftovers)
         std::set<Bytes> used;
         for (size_t i = rng.weighted({50, 30, 20}); i > 0; --i) {
             Bytes kd = rng.bytes(4);                 // version bytes
-            kd.push_back(static_cast<unsigned char>(rng.below(6))); // depth
-            Append(kd, rng.bytes(4));                // parent fingerprint
-            Append(kd, rng.bytes(4));                // child
+            const unsigned char depth = static_cast<unsigned char>(rng.below(6));
+            kd.push_back(depth);
+            // a depth-0 key has no parent: fingerprint and child number must be zero (BIP32)
+            Append(kd, depth ? rng.bytes(4) : Bytes(4, 0)); // parent fingerprint
+            Append(kd, depth ? rng.bytes(4) : Bytes(4, 0)); // child
             Append(kd, rng.bytes(32));               // chain code
             CPubKey p = g.Pub();
             if (!used.insert(ToBytes(p)).second) continue;
@@ -1188,8 +1190,10 @@ VH_CMD(c47_fin)
         vh::log().obs("hostile:" + hostile);
         // remember which inputs arrive with final fields, and the unsigned tx before finalization
         std::vector<bool> pre_final;
-        for (const auto& pi : target.inputs) pre_final.push_back(PSBTInputSigned(pi));
+        // the known shape: the input already carries final script fields AND a non-witness utxo when it reaches the finalizer
+        for (const auto& pi : target.inputs) pre_final.push_back(PSBTInputSigned(pi) && pi.non_witness_utxo != nullptr);
         const auto unsigned_before = target.GetUnsignedTx();
+        const Bytes before_bytes = Enc(target);
         CMutableTransaction extracted;
         bool ok = false;
         try {
@@ -1231,7 +1235,8 @@ VH_CMD(c47_fin)
                 const char* key = pre_final[i] ? "psbt-finalize-accepts-unverified-final-script" : "psbt-extracted-tx-invalid";
                 vh::log().violation(key, pre_final[i] ? "FinalizeAndExtractPSBT returned a transaction whose input (which arrived with final script fields and a non-witness utxo) fails script verification"
                                                       : "an input of the extracted transaction fails script verification against the PSBT's utxo",
-                                    vh::J().u("input", i).str("script_error", ScriptErrorString(serr)).str("classes", classes).str("hostile", hostile).hex("psbt", Enc(target)).hex("tx", SerObj(TX_WITH_WITNESS(ctx))));
+                                    vh::J().u("input", i).str("script_error", ScriptErrorString(serr)).str("classes", classes).str("hostile", hostile).hex("psbt_before_finalize", before_bytes).hex("psbt", Enc(target))
+                                        .hex("final_script_sig", ctx.vin[i].scriptSig).u("final_witness_items", ctx.vin[i].scriptWitness.stack.size()).hex("spent_script", utxos[i].scriptPubKey).hex("tx", SerObj(TX_WITH_WITNESS(ctx))));
             } else if (utxos[i].scriptPubKey.IsPayToTaproot()) {
                 vh::log().obs("taproot_inputs_verified");
             }
